@@ -12,7 +12,7 @@ use vcore::{prop_search, Outcome, Run, Search};
 use wire::*;
 use wtransport::Connection;
 
-const RULE: &str = "case = runtime flavour x receiver's max concurrent uni/bidi streams in {2,4,8,default} x N in 1..(6 x limit) peer-opened streams (uni/bidi mix), each carrying a unique tag and finished x 1..4 accepting tasks per kind x per-accept behaviour in {immediate, delay, cancel after k polls (k in 0..4) then re-issue} x sender (wtransport or raw peer, either role) x sender pace x occasional streams naming a foreign session (raw sender; must not be delivered). Oracle: the multiset of (stream id, tag) returned by all accept calls equals the multiset opened for this session; bytes are the stream's own; no further stream appears after all were delivered. Non-trivial: >= 1 cancelled accept or >= 2 accepting tasks of a kind or N > limit; distinct = distinct case";
+const RULE: &str = "case = runtime flavour x receiver's max concurrent uni/bidi streams in {2,4,8,default} x N in 1..(6 x limit) peer-opened streams (uni/bidi mix), each carrying a unique tag and finished x 1..4 accepting tasks per kind x per-accept behaviour in {immediate, delay, cancel after k polls (k in 0..4) then re-issue} x sender (wtransport or raw peer, either role) x sender pace x occasional streams naming a foreign session (raw sender; must not be delivered) x occasional streams that are opened and abandoned without a byte (opening future dropped un-awaited / raw stream finished or reset at once; nothing to deliver, nothing else may be lost). Oracle: the multiset of (stream id, tag) returned by all accept calls equals the multiset opened for this session; bytes are the stream's own; no further stream appears after all were delivered. Non-trivial: >= 1 cancelled accept or >= 2 accepting tasks of a kind or N > limit; distinct = distinct case";
 
 #[derive(Clone, Debug, Serialize, Deserialize)]
 pub enum Beh {
@@ -39,6 +39,11 @@ pub struct Case {
     /// receiver's flow-control windows: 0 = 1 KiB per stream (3 KiB per connection), 1 = 4 KiB, else default
     #[serde(default = "default_window")]
     pub window: u8,
+    /// positions (stream indices) before which the sender opens a stream of that kind and abandons
+    /// it without a byte: a wtransport sender drops the opening future un-awaited, a raw sender
+    /// finishes (even positions) or resets (odd positions) the stream before writing anything
+    #[serde(default)]
+    pub abandoned: Vec<u8>,
 }
 
 fn default_window() -> u8 {
@@ -66,12 +71,12 @@ pub fn case_strategy() -> impl Strategy<Value = Case> {
             proptest::collection::vec(prop_oneof![3 => Just(Beh::Immediate), 2 => (1u8..12).prop_map(Beh::Delay), 4 => (0u8..5).prop_map(Beh::Cancel)], 1..8),
             0u8..4,
             prop_oneof![3 => Just(0u8), 1 => 1u8..4],
-            proptest::collection::vec(any::<u8>(), 0..3),
+            (proptest::collection::vec(any::<u8>(), 0..3), prop_oneof![2 => Just(Vec::new()), 1 => proptest::collection::vec(any::<u8>(), 1..3)]),
             prop_oneof![Just(8u16), 8u16..200, 200u16..3000],
             0u8..4,
         )
     })
-    .prop_map(|(flavor, limit, streams, uni_tasks, bi_tasks, plan, sender, pace_ms, foreign, payload_len, window)| Case { flavor, limit, streams, uni_tasks, bi_tasks, plan, sender, pace_ms, foreign, payload_len, window })
+    .prop_map(|(flavor, limit, streams, uni_tasks, bi_tasks, plan, sender, pace_ms, (foreign, abandoned), payload_len, window)| Case { flavor, limit, streams, uni_tasks, bi_tasks, plan, sender, pace_ms, foreign, payload_len, window, abandoned })
 }
 
 fn tag_payload(i: usize, len: usize) -> Vec<u8> {
@@ -211,6 +216,7 @@ async fn exec_async(case: Arc<Case>) -> CaseResult {
     let opened_count = Arc::new(AtomicUsize::new(0));
     let mut send_tasks = Vec::new();
     let foreign_positions: Vec<usize> = case.foreign.iter().map(|f| *f as usize % n).collect();
+    let abandoned_positions: Vec<usize> = case.abandoned.iter().map(|f| *f as usize % n).collect();
     for (i, bidi) in case.streams.iter().cloned().enumerate() {
         if case.pace_ms > 0 {
             tokio::time::sleep(Duration::from_millis(case.pace_ms as u64)).await;
@@ -221,8 +227,18 @@ async fn exec_async(case: Arc<Case>) -> CaseResult {
         match &sender {
             Sender::Wt(conn) => {
                 let conn = conn.clone();
+                let abandon = abandoned_positions.contains(&i);
                 send_tasks.push(tokio::spawn(async move {
                     let r: Res<()> = async {
+                        if abandon {
+                            // an opening that is given up before it is awaited (documented: the
+                            // stream is simply closed during its initialisation)
+                            if bidi {
+                                drop(conn.open_bi().await.map_err(|e| conn_err(&e))?);
+                            } else {
+                                drop(conn.open_uni().await.map_err(|e| conn_err(&e))?);
+                            }
+                        }
                         if bidi {
                             let (mut s, mut r) = conn.open_bi().await.map_err(|e| conn_err(&e))?.await.map_err(|e| e.to_string())?;
                             sh.lock().unwrap().opened.insert(s.id().into_u64(), i);
@@ -250,8 +266,26 @@ async fn exec_async(case: Arc<Case>) -> CaseResult {
                 let conn = conn.clone();
                 let session = *session;
                 let inject_foreign = foreign_positions.contains(&i);
+                let abandon = abandoned_positions.contains(&i);
                 send_tasks.push(tokio::spawn(async move {
                     let r: Res<()> = async {
+                        if abandon {
+                            if bidi {
+                                let (mut f, _r) = conn.open_bi().await.map_err(|e| e.to_string())?;
+                                if i % 2 == 0 {
+                                    let _ = f.finish();
+                                } else {
+                                    let _ = f.reset(vi(3));
+                                }
+                            } else {
+                                let mut f = conn.open_uni().await.map_err(|e| e.to_string())?;
+                                if i % 2 == 0 {
+                                    let _ = f.finish();
+                                } else {
+                                    let _ = f.reset(vi(3));
+                                }
+                            }
+                        }
                         if inject_foreign {
                             // a stream naming a session that does not exist: never delivered
                             if bidi {
@@ -369,6 +403,9 @@ async fn exec_async(case: Arc<Case>) -> CaseResult {
     if win.is_some() {
         labels.push("small-window");
     }
+    if !case.abandoned.is_empty() {
+        labels.push(if case.sender % 4 >= 2 { "abandoned-opening:raw" } else { "abandoned-opening:wt" });
+    }
     if case.sender % 4 >= 2 {
         labels.push("raw-sender");
         if !case.foreign.is_empty() {
@@ -396,7 +433,7 @@ pub fn run(run: &Run) {
         |c| judge(|| exec(c), true, "C08:lost-timeout"),
         |c| serde_json::to_value(c).unwrap(),
     );
-    for l in ["cancelled-accept", "n>limit", "raw-sender", "foreign-session-stream"] {
+    for l in ["cancelled-accept", "n>limit", "raw-sender", "foreign-session-stream", "abandoned-opening:raw", "abandoned-opening:wt"] {
         run.essential(l);
     }
 }
